@@ -66,6 +66,8 @@ def run(R):
         r5(R)
     if R.want("C01.R7"):
         r7(R)
+    if R.want("C01.R8"):
+        r8(R)
 
 
 # --------------------------------------------------------------------------------------------------
@@ -425,8 +427,13 @@ def r5(R):
                      "from 'translation' else t_x,t_y,t_z; the slow branch multiplies omega by omegasign before every use")
     m = pyfacts.module(R, CF)
     fn = m.func("columnfile.updateGeometry")
-    top = [s for s in fn.body if isinstance(s, ast.If) and src(s.test) == "fast"]
-    R.shape(len(top) == 1, "C01.R5", CF, "columnfile.updateGeometry", "the 'if fast:' split")
+    parts = pyfacts.if_else_parts(fn, "fast")
+    R.shape(parts is not None and parts[2], "C01.R5", CF, "columnfile.updateGeometry", "the 'if fast:' split (if / else, or 'if fast: ...; return' followed by the slow route)")
+
+    class _Split(object):          # the two routes, whichever way the split is spelt
+        pass
+    top = [_Split()]
+    top[0].body, top[0].orelse, top[0].lineno = parts[1], parts[2], parts[0].lineno
     want = {"xl", "yl", "zl", "tth", "eta", "ds", "gx", "gy", "gz"}
 
     def cols(stmts):
@@ -548,6 +555,45 @@ def r7(R):
                     R.shape(False, "C01.R7", CF, q, "where the object %s (receiver of %s) is constructed" % (what, src(c.func)))
     R.shape(n >= 3, "C01.R7", CF, "columnfile.updateGeometry", "calls of Ctransform.sf2xyz / sf2gv on the fast route")
     R.floor("C01.R7", 3)
+
+
+def r8(R):
+    """the reference formulas are floating-point formulas.  An array made with np.array(arg) / np.asarray(arg) / arg.copy() without a
+    dtype has the dtype of what the caller passed; storing (x - centre) * pixelsize into it in place converts the result back to
+    that dtype, so integer pixel coordinates (np.mgrid, as transform.PixelLUT passes them) are truncated to whole micrometres while the
+    compiled route converts its input to double first."""
+    R.rule("C01.R8", "transform.py: an array that receives arithmetic results through in-place stores (A[...] = expr) and was made from an "
+                     "argument is made with a float dtype (np.array(arg, float) ...), so integer input is not truncated")
+    m = pyfacts.module(R, TR)
+    n = 0
+    for q, fn in sorted(m.funcs.items()):
+        params = set(a.arg for a in fn.args.args)
+        made = {}
+        for a in ast.walk(fn):
+            if isinstance(a, ast.Assign) and len(a.targets) == 1 and isinstance(a.targets[0], ast.Name) and isinstance(a.value, ast.Call):
+                d = pyfacts.dotted(a.value.func) or ""
+                v = a.value
+                from_arg = v.args and any(isinstance(x, ast.Name) and x.id in params for x in ast.walk(v.args[0]))
+                if d.split(".")[-1] in ("array", "asarray", "asanyarray", "ascontiguousarray") and d.split(".")[0] in ("np", "numpy", "n") and from_arg:
+                    typed = len(v.args) >= 2 or any(k.arg == "dtype" for k in v.keywords)
+                    made[a.targets[0].id] = (a, typed)
+                elif isinstance(v.func, ast.Attribute) and v.func.attr == "copy" and isinstance(v.func.value, ast.Name) and v.func.value.id in params:
+                    made[a.targets[0].id] = (a, False)
+        for name, (a, typed) in made.items():
+            stores = [st for st in ast.walk(fn) if isinstance(st, ast.Assign) and isinstance(st.targets[0], ast.Subscript)
+                      and isinstance(st.targets[0].value, ast.Name) and st.targets[0].value.id == name and st.lineno > a.lineno
+                      and any(isinstance(x, ast.BinOp) and isinstance(x.op, (ast.Mult, ast.Div, ast.Sub, ast.Add)) for x in ast.walk(st.value))]
+            stores += [st for st in ast.walk(fn) if isinstance(st, ast.AugAssign) and isinstance(st.target, (ast.Subscript, ast.Name))
+                       and src(st.target).split("[")[0] == name and st.lineno > a.lineno]
+            if not stores:
+                continue
+            n += 1
+            R.check(typed, "C01.R8", TR, a.lineno, q, "%s, then %s" % (src(a)[:50], src(stores[0])[:60]),
+                    "'%s' takes the dtype of the argument and arithmetic results are stored into it in place: for integer pixel coordinates "
+                    "(np.mgrid - this is how PixelLUT calls it) (position - centre) * pixel size is truncated to an integer, up to one unit "
+                    "(micrometre) away from what the compiled route and the formula give" % name)
+    R.shape(n >= 1, "C01.R8", TR, "compute_xyz_lab", "an array made from an argument and updated in place")
+    R.floor("C01.R8", 1)
 
 
 def rg_compute_gv(R, rule):
